@@ -23,7 +23,7 @@ type heights struct {
 	used  int
 }
 
-func (h *heights) Seed(int64)    {}
+func (h *heights) Seed(int64)     {}
 func (h *heights) Uint64() uint64 { return uint64(h.Int63()) }
 func (h *heights) Int63() int64 {
 	want := 1
@@ -54,12 +54,12 @@ func (o op) String() string {
 }
 
 type universe[K any] struct {
-	name   string
-	keys   []K // key of index i
-	cmp    ord.Ord[K]
-	less   func(a, b K) bool // the same total order, for the reference
-	nvals  int
-	maxH   int
+	name  string
+	keys  []K // key of index i
+	cmp   ord.Ord[K]
+	less  func(a, b K) bool // the same total order, for the reference
+	nvals int
+	maxH  int
 }
 
 type node struct {
@@ -283,8 +283,8 @@ func cases(tier string) []func(time.Time) drv.Result {
 
 func main() {
 	drv.Main(drv.Property{
-		ID: "C18", Level: "model_checking",
-		Rule: "one case = (order: ord.Int, reversed ord.From, ord.String) x universe (3 keys, 2 values, node heights 1..3 in quick; 4 keys and heights 1..4, 5 keys x heights 1..3, 3 keys x heights 1..6 in thorough); breadth-first search over ALL reachable states, a state being the list's own printed form (every node and every forward pointer) plus the value read back for every key - the concrete state, so merging is exact; every transition = one Put(k,v,height) / Get(k) / Remove(k) executed on a fresh real list after replaying the shortest history; node heights are an enumerated choice (scripted rand.Source installed through a seam file added to the staged copy)",
+		ID: "C18", Level: "model_checking", PanicIsViolation: true,
+		Rule:        "one case = (order: ord.Int, reversed ord.From, ord.String) x universe (3 keys, 2 values, node heights 1..3 in quick; 4 keys and heights 1..4, 5 keys x heights 1..3, 3 keys x heights 1..6 in thorough); breadth-first search over ALL reachable states, a state being the list's own printed form (every node and every forward pointer) plus the value read back for every key - the concrete state, so merging is exact; every transition = one Put(k,v,height) / Get(k) / Remove(k) executed on a fresh real list after replaying the shortest history; node heights are an enumerated choice (scripted rand.Source installed through a seam file added to the staged copy)",
 		Assumptions: []string{"the seam file added to the staged copy of internal/maplike/skiplist only replaces the list's rand.Source", "larger universes / longer random histories are not sampled (outside this family)"},
 		Cases: func(tier string) (int, func(int) string) {
 			return len(cases(tier)), func(i int) string { return fmt.Sprintf("skiplist bfs #%d", i) }
